@@ -23,4 +23,12 @@ PROPS = {
         "quick": {"shards": 8, "timeout_s": 900, "floors": {"distinct_nontrivial": 1500, "exact_grid_references": 2000, "order_checks": 1000, "boxes_fully_covered": 50, "boxes_overlapping_nothing": 200}},
         "thorough": {"shards": 16, "timeout_s": 3000, "floors": {"distinct_nontrivial": 50000}},
     },
+    "C17": {
+        "quick": {"shards": 8, "timeout_s": 900, "floors": {"distinct_nontrivial": 1000, "streams_run_in_all_permutations": 300, "permuted_executions": 100000, "hungarian_cases_where_greedy_is_suboptimal": 100}},
+        "thorough": {"shards": 16, "timeout_s": 3000, "floors": {"distinct_nontrivial": 50000}},
+    },
+    "C07": {
+        "quick": {"shards": 8, "timeout_s": 900, "floors": {"distinct_nontrivial": 300, "box_steps_compared": 50000, "point_steps_compared": 50000, "cost_grid_points": 10000, "stationary_checks": 300}},
+        "thorough": {"shards": 16, "timeout_s": 3000, "floors": {"distinct_nontrivial": 15000}},
+    },
 }
